@@ -11,7 +11,7 @@ CONSTANTS
   TdFlags = {FALSE, TRUE}
   InVecs <- VecsQ
   OrderKinds = {"BIOH"}
-  ActSchemes <- SchemesRec
+  ActSchemes <- SchemesMixed
   LinkCaps = {2}
   MinLinks = 0
   Canonical = TRUE
